@@ -12,7 +12,7 @@ if [ "$1" = "-e" ]; then
   sed -i -e "$2" "$S/src/$3" || exit 9; shift 3
   diff -ru /repo/src "$S/src" | head -20
 else
-  (cd "$S" && patch -p1 -s < "$1") || { echo "patch failed"; rm -rf "$S"; exit 9; }; shift
+  P="$(realpath "$1")"; (cd "$S" && patch -p1 -s < "$P") || { echo "patch failed"; rm -rf "$S"; exit 9; }; shift
 fi
 TIER="${1:-quick}"
 VERIF_SRC="$S/src" VERIF_WORK="$S/work" VERIF_EVIDENCE_DIR="$S/ev" VERIF_REPLAYS="$S/replays" /verif/bin/check "$ID" --tier "$TIER" ${ONLY:+--only "$ONLY"} 2>&1 | grep -v "^WARNING" | grep -E "VIOLATION|violated|KNOWN|tier=|HARNESS|inconclusive" | head -12
